@@ -391,6 +391,10 @@ class Lexer():
                     elif hex_m:
                         c = bytes([int(hex_m.group(0)[1:], 16)])
                         i += 3
+                    elif s[i+1:i+3] == b'\r\n':
+                        # Line continuation in a file with CRLF line ends.
+                        c = b'\n'
+                        i += 2
                     else:
                         next_c = s[i+1:i+2]
                         if next_c in _STRING_ESCAPES:
